@@ -39,6 +39,7 @@ type c26run struct {
 	mvgo     bool
 	inject   bool
 	errKind  int
+	umask    int
 	work     []string
 	whash    uint64
 	extra    map[string]int
@@ -135,7 +136,8 @@ func (c26) NewRun(plan *simrt.Source, job *harn.Job) harn.Run {
 	}
 	r.inject = plan.Chance(500)
 	r.errKind = plan.Draw(5)
-	r.work = append(r.work, fmt.Sprintf("xgo fmt %s %s (inject error: %v)", strings.Join(r.flags, " "), strings.Join(r.args, " "), r.inject))
+	r.umask = []int{022, 022, 077, 027, 002, 0}[plan.Draw(6)]
+	r.work = append(r.work, fmt.Sprintf("xgo fmt %s %s (inject error: %v, umask %03o)", strings.Join(r.flags, " "), strings.Join(r.args, " "), r.inject, r.umask))
 	h := uint64(14695981039346656037)
 	for _, f := range r.files {
 		r.work = append(r.work, fmt.Sprintf("%s mode=%o %s %q", f.Rel, f.Mode, f.Kind, f.Src))
@@ -234,6 +236,8 @@ func (r *c26run) RunSeq(sched *simrt.Source, keepLog bool) *simrt.Result {
 	defer os.RemoveAll(r.dir)
 	cwd, _ := os.Getwd()
 	defer os.Chdir(cwd)
+	// the process umask is part of the environment the command runs in
+	defer syscall.Umask(syscall.Umask(r.umask))
 	fail := func(class, msg, site string) {
 		if r.failure == nil {
 			r.failure = &simrt.Failure{Class: class, Msg: msg, Sites: []string{site}}
